@@ -7,6 +7,7 @@ mkdir -p work evidence
 python3 tools/gen_constants.py > /dev/null
 python3 tools/gen_leaf.py > /dev/null
 python3 tools/gen_wire.py > /dev/null
+python3 tools/gen_uplink.py > /dev/null
 sh coq/gen_project.sh
 # build the targets of the claimed properties (a work-in-progress file of an unclaimed
 # property must not break setup)
